@@ -121,6 +121,7 @@ type unpickleCase struct {
 	Arity   int // from the len(args) != N test; -1 when absent
 	Entry   ssa.Instruction
 	Indexes map[int64]bool // constant indexes of args read in the case
+	Whole   bool           // the whole tuple is passed on or returned in the case
 }
 
 func extractUnpicklerCases(p *core.Prog, fn *ssa.Function) (cases map[string]*unpickleCase, modules []string) {
@@ -185,6 +186,26 @@ func extractUnpicklerCases(p *core.Prog, fn *ssa.Function) (cases map[string]*un
 					}
 				}
 			}
+		case *ssa.Call:
+			// the whole argument tuple is consumed: passed on (append(..., args...), a helper) in this case
+			for _, a := range x.Call.Args {
+				if core.Unwrap(a) == ssa.Value(argsP) {
+					if b, isB := x.Call.Value.(*ssa.Builtin); isB && (b.Name() == "len" || b.Name() == "cap") {
+						continue
+					}
+					if uc := caseOf(in); uc != nil {
+						uc.Whole = true
+					}
+				}
+			}
+		case *ssa.Return:
+			for _, v := range x.Results {
+				if core.Unwrap(v) == ssa.Value(argsP) {
+					if uc := caseOf(in); uc != nil {
+						uc.Whole = true
+					}
+				}
+			}
 		}
 	})
 	return
@@ -244,7 +265,7 @@ func runC08(p *core.Prog, r *core.Result) {
 				}
 				// R8.5 (consumer side): every element index is read
 				for i := 0; i < pc.Arity; i++ {
-					r.Check(uc.Indexes[int64(i)], "R8.5", fmt.Sprintf("%s#consumes:%s[%d]", fname(up), pc.Name, i), p.InstrPos(uc.Entry), fmt.Sprintf("argument %d of %s is read by the unpickler", i, pc.Name), fmt.Sprintf("argument %d of %s is never read by the unpickler: that part of the environment does not reach the compared value, so changes to it are invisible", i, pc.Name))
+					r.Check(uc.Indexes[int64(i)] || uc.Whole, "R8.5", fmt.Sprintf("%s#consumes:%s[%d]", fname(up), pc.Name, i), p.InstrPos(uc.Entry), fmt.Sprintf("argument %d of %s is read by the unpickler", i, pc.Name), fmt.Sprintf("argument %d of %s is never read by the unpickler: that part of the environment does not reach the compared value, so changes to it are invisible", i, pc.Name))
 				}
 			}
 			if !found {
@@ -253,6 +274,42 @@ func runC08(p *core.Prog, r *core.Result) {
 		}
 	}
 	r.Floor("R8.1", len(allCases), 4, "pickler kinds")
+	// R8.4 (flow part): no hash value, address or other per-process quantity flows into a pickled argument
+	for _, pc := range allCases {
+		for i, e := range pc.Elems {
+			if e == nil {
+				continue
+			}
+			var src string
+			core.DependsOn(e, core.SliceOpts{Stores: true, ThroughCall: func(*ssa.Call) bool { return true }}, func(v ssa.Value) bool {
+				c, ok := v.(*ssa.Call)
+				if !ok {
+					return false
+				}
+				name := ""
+				if c.Call.IsInvoke() {
+					name = c.Call.Method.Name()
+				} else if cal := core.Callee(c); cal != nil {
+					name = cal.Name()
+					if why := core.IsNondet(cal); why != "" {
+						src = core.CalleeKey(cal) + " (" + why + ")"
+						return true
+					}
+				}
+				if name == "Hash" {
+					src = "a Hash() result (starlark string hashes of 12+ bytes use the Go runtime's per-process seeded hash)"
+					return true
+				}
+				return false
+			})
+			construct := fmt.Sprintf("%s#arg-%s[%d]-process-independent", fname(pc.Ret.Parent()), pc.Name, i)
+			if src != "" {
+				r.Bad("R8.4", construct, p.InstrPos(pc.Ret), "argument %d of %s depends on %s: the fingerprint differs between processes, so after every restart the target looks changed", i, pc.Name, src)
+			} else {
+				r.OK("R8.4", construct, p.InstrPos(pc.Ret), "depends on no hash value, address or clock")
+			}
+		}
+	}
 
 	// ---- R8.5 producer side: results of environment accessors flow into the tuple
 	producers := map[*ssa.Function]bool{}
